@@ -26,6 +26,7 @@ func checkC13(r *Report, p *Program) {
 	failedResultNotUsed(r, p, "R13.7")
 	nilKnownNotDereferenced(r, p, "R13.8")
 	lookupResultsChecked(r, p, "R13.9")
+	constantSlicesBounded(r, p, "R13.10", 1)
 	// shouldContinueRolling hands latest.desiredChildMap[name] to ApplyUpdate unchecked: what makes that
 	// non-nil is that syncRevisionClaims keeps, for EVERY revision incl. the latest, only names the latest desires
 	r09_5(r, p)
